@@ -249,7 +249,9 @@ Section SetFacts.
   Proof.
     induction l as [|y ys IH]; simpl; [tauto|].
     destruct (existsb (eqb y) (dedup eqb ys)) eqn:E.
-    - apply existsb_eqb_in in E. rewrite IH in *. split; [tauto|]. intros [->|H]; assumption.
+    - apply existsb_eqb_in in E. split.
+      + intros H. right. apply IH, H.
+      + intros [<-|H]; [exact E | apply IH, H].
     - simpl. rewrite IH. tauto.
   Qed.
 
@@ -328,8 +330,14 @@ Proof.
   rewrite (skipn_all2 a) by lia. reflexivity.
 Qed.
 
+Lemma skipn_skipn_add {A} (l : list A) a b : skipn a (skipn b l) = skipn (b + a) l.
+Proof.
+  revert l. induction b as [|b IH]; intros l; [reflexivity|].
+  destruct l as [|x xs]; simpl; [apply skipn_nil | apply IH].
+Qed.
+
 Lemma chunk_skipn {A} (l : list A) k i : chunk k i (skipn k l) = chunk k (S i) l.
-Proof. unfold chunk. f_equal. rewrite skipn_skipn. f_equal. simpl. lia. Qed.
+Proof. unfold chunk. rewrite skipn_skipn_add. reflexivity. Qed.
 
 Section Chunks.
   Context {A : Type} (f : list A -> list A).
@@ -370,12 +378,20 @@ Section Chunks.
   Qed.
 End Chunks.
 
-Lemma chunk_in {A} (l : list A) k i x : In x (chunk k i l) -> In x l.
+Lemma in_firstn {A} (l : list A) k x : In x (firstn k l) -> In x l.
 Proof.
-  unfold chunk. intros H. apply firstn_In in H. revert H. generalize (i * k) as m.
-  intros m. revert l. induction m as [|m IH]; intros l H; [exact H|].
+  revert l. induction k as [|k IH]; intros l H; [destruct H|].
+  destruct l as [|y ys]; [destruct H|]. destruct H as [->|H]; [left; reflexivity | right; apply IH, H].
+Qed.
+
+Lemma in_skipn {A} (l : list A) m x : In x (skipn m l) -> In x l.
+Proof.
+  revert l. induction m as [|m IH]; intros l H; [exact H|].
   destruct l as [|y ys]; [destruct H|]. right. apply IH. exact H.
 Qed.
+
+Lemma chunk_in {A} (l : list A) k i x : In x (chunk k i l) -> In x l.
+Proof. unfold chunk. intros H. apply in_firstn in H. apply in_skipn in H. exact H. Qed.
 
 (** a list is determined by its elements *)
 Lemma nth_ext_eq {A} (l l' : list A) d :
